@@ -14,8 +14,15 @@ pub struct PanicInfo {
 impl PanicInfo {
     /// signature without line numbers: source file + message class
     pub fn signature(&self) -> String {
-        let file = self.file.rsplit("/src/").next().unwrap_or(&self.file).to_string();
-        let file = if self.file.contains("/repo/") || self.file.starts_with("src/") { format!("src/{}", file) } else { self.file.clone() };
+        // repo files as src/..., dependency files as <crate-version>/src/... (no registry hash, no line)
+        let file = if let Some(i) = self.file.find("/registry/src/") {
+            let rest = &self.file[i + "/registry/src/".len()..];
+            rest.splitn(2, '/').nth(1).unwrap_or(rest).to_string()
+        } else if let Some(i) = self.file.find("/repo/") {
+            self.file[i + "/repo/".len()..].to_string()
+        } else {
+            self.file.clone()
+        };
         let mut msg: String = self.message.chars().map(|c| if c.is_ascii_digit() { '#' } else { c }).collect();
         if msg.len() > 60 {
             msg = msg.chars().take(60).collect();
